@@ -350,7 +350,10 @@ func (m *model) predict(bias int) fireResult {
 				e := m.eps[id]
 				lhs, rhs := e.f*100, m.cfg.FP.Threshold*(e.s+e.f) // exact: f/(s+f)*100 > threshold
 				switch {
-				case lhs == rhs:
+				case lhs == rhs && e.s != 0 && e.f != 0:
+					// f/(s+f)*100 is computed in floating point; for a proper
+					// fraction that is exactly at the threshold the rounding may
+					// go either way (0 and 100 percent are exact).
 					r.uncertain[id] = true
 				case lhs > rhs:
 					r.candidates[id] = true
